@@ -832,6 +832,7 @@ func runPair(c *Ctx, f *FC, nr map[string]bool) *pairAn {
 	}
 	sort.Strings(nz)
 	a.runPairDepth(fns)
+	a.runPairTypeParams(fns)
 	// PAIR.drop: a state-returning call whose new state is discarded (the parse continues from a state that has
 	// not consumed what the call consumed, or without the scope/offside change it made)
 	r.Rule("PAIR.drop", "no parse state is dropped: every call whose result carries a ParseState has that component bound, returned or passed on", 100)
